@@ -91,7 +91,7 @@ func (a c12Auth) verifierMatches(v string) bool {
 
 type c12Tok struct {
 	Presenter string `json:"presenter"` // A | B | C | unknown | empty
-	Secret    string `json:"secret"`    // right | wrong | absent | other | escaped
+	Secret    string `json:"secret"`    // right | wrong | absent | other | escaped | blank | padded | prefix | casefold
 	Verifier  string `json:"verifier"`  // right | wrong | absent | challenge
 	Redirect  string `json:"redirect"`  // same | other-allowed | foreign | empty
 	Code      string `json:"code"`      // fresh | age299 | age300 | age301 | flipped | foreign-key | session-cookie | access-token | id-token
@@ -211,6 +211,22 @@ func (x *c12Ctx) run(p c12Point) (violated bool, key, what, class string) {
 		}
 	case "escaped":
 		secret = url.QueryEscape(c12Secrets[presenter])
+	// near misses of the configured secret (for the secret-less client: of the empty string)
+	case "blank":
+		secret = " \n"
+	case "padded":
+		secret = c12Secrets[presenter] + " "
+	case "prefix":
+		if n := len(c12Secrets[presenter]); n > 0 {
+			secret = c12Secrets[presenter][:n-1]
+		} else {
+			secret = "\t"
+		}
+	case "casefold":
+		secret = strings.ToUpper(c12Secrets[presenter])
+		if secret == c12Secrets[presenter] {
+			secret = "\x00"
+		}
 	}
 	switch t.Verifier {
 	case "right":
@@ -382,7 +398,7 @@ func c12Auths() []c12Auth {
 func c12Toks(full bool) []c12Tok {
 	var res []c12Tok
 	for _, pr := range []string{"A", "B", "C", "unknown", "empty"} {
-		for _, se := range []string{"right", "wrong", "absent", "other", "escaped"} {
+		for _, se := range []string{"right", "wrong", "absent", "other", "escaped", "blank", "padded", "prefix", "casefold"} {
 			for _, ve := range []string{"right", "wrong", "absent", "challenge"} {
 				for _, re := range []string{"same", "other-allowed", "foreign", "empty"} {
 					for _, co := range []string{"fresh", "age299", "age300", "age301", "flipped", "foreign-key", "session-cookie", "access-token", "id-token"} {
@@ -404,7 +420,7 @@ func init() {
 	vfRegister(&vfeng.Check{
 		ID:    "C12",
 		Level: "model_checking",
-		Rule:  "exhaustive product on the real authorization, token and userinfo handlers: authorization (client A with secret / B secret-less, user, challenge none/S256/no-method/plain/unknown/empty, nonce none/short/ok, audience none/allowed/foreign) x token request (presenter A/B/C/unknown/empty, secret right/wrong/absent/other client's/URL-escaped, verifier right/wrong/absent/challenge itself, redirect same/other-allowed/foreign/empty, code fresh/299s/300s/301s/bit-flipped/foreign key/session cookie/access token/ID token, credentials in header/form/both disagreeing, POST/GET); oracle: released => mayRelease(model); canonical flows must succeed; released ID token verified against the keys served by the JWKS route; userinfo returns the same user",
+		Rule:  "exhaustive product on the real authorization, token and userinfo handlers: authorization (client A with secret / B secret-less, user, challenge none/S256/no-method/plain/unknown/empty, nonce none/short/ok, audience none/allowed/foreign) x token request (presenter A/B/C/unknown/empty, secret right/wrong/absent/other client's/URL-escaped/whitespace-only/right+trailing blank/one character short/case-folded, verifier right/wrong/absent/challenge itself, redirect same/other-allowed/foreign/empty, code fresh/299s/300s/301s/bit-flipped/foreign key/session cookie/access token/ID token, credentials in header/form/both disagreeing, POST/GET); oracle: released => mayRelease(model); canonical flows must succeed; released ID token verified against the keys served by the JWKS route; userinfo returns the same user",
 		Assumptions: []string{"a code presented exactly 300 s after issue is a boundary (not judged)", "a URL-escaped secret in the form (where no decoding is specified) is not judged"},
 		Shards: func(tier string) int { return 16 },
 		Run: func(c *vfeng.Ctx) {
